@@ -144,7 +144,7 @@ def main():
                 if args and not any(a in name or a == prop for a in args):
                     continue
                 t0 = time.time()
-                env = dict(os.environ, ROCKIT_SRC=d)
+                env = dict(os.environ, ROCKIT_SRC=d, RV_REPLAY_DIR=os.path.join(d, 'replay'), RV_EVIDENCE_DIR=os.path.join(d, 'evidence'), RV_INSTANCE_TIMEOUT='45')
                 r = subprocess.run([os.path.join(HERE, 'run.sh'), 'check', prop, '--tier', tier], env=env, capture_output=True, text=True)
                 nv = r.stdout.count('VIOLATION property=')
                 ok = r.returncode == 1 and nv > 0
